@@ -261,7 +261,9 @@ impl Client {
                 Ok(Some(RequestResult::Result(Err(e), _))) => {
                     // like quiver-cli's REPL loop: a runtime error ends the session; the next line
                     // starts a fresh Repl (new persistent process, no variables)
-                    if let Some(ClientOp::Line { session, .. }) = self.ops.get(self.pc).cloned()
+                    // (unless the run models the web glue, which keeps the session)
+                    if !world.cfg.keep_session_after_error
+                        && let Some(ClientOp::Line { session, .. }) = self.ops.get(self.pc).cloned()
                         && let Some(slot) = self.sessions.get_mut(session)
                     {
                         *slot = None;
